@@ -38,6 +38,7 @@ package cdb
 //@ ghostvar tokK seq
 //@ ghostvar tokB (Array Int Slice)
 //@ extern io Writer.Write
+//@ pure
 //@ updates hN, hL, ntok, tokK, tokB
 //@ ensures[tee] teeOf[recv] != 0 && err == nil ==> hN == upd(old(hN), teeOf[recv], old(hN)[teeOf[recv]] + 1) && hL == upd(old(hL), teeOf[recv], string(p))
 //@ ensures[other] teeOf[recv] == 0 ==> hN == old(hN) && hL == old(hL)
